@@ -160,18 +160,20 @@ in the code and leaves — or enters — the fragment changes this list and is f
 theorem wire_types_in_fragment :
     (Fdo.Gen.Schemas.names.filter fun n =>
       match Fdo.Gen.Schemas.byName n with
-      | some s => s.inFragment && decide (s.ptrDepth ≤ 63)
-      | none => false) =
-    ["RawBytes", "int64", "uint8", "uint16", "int8", "int16", "int32", "int", "uint32", "uint64", "bytes", "string",
-     "fixed16", "map[int]bytes", "Bstr[int]", "Bstr[map]", "ByteWrap[bytes]", "ByteWrap[Hash]", "Tag[Raw]",
-     "Timestamp", "X509Certificate", "X5Chain", "Hash", "PublicKey", "RvInstruction", "RvInfo", "RvTO2Addr", "To1d",
-     "ErrorMessage", "IntOrStr", "Sign1Tag[Raw]", "Sign1Tag[Entry]", "Sign1Tag[To1d]", "Sign1Tag[OVHProof]",
-     "Sign1Tag[DeviceSetup]", "Mac0Tag", "Encrypt0Tag", "Encrypt0", "Mac0[Encrypt0]", "Voucher", "VoucherHeader",
-     "VoucherEntryPayload", "DeviceCredential", "TO2.HelloDevice", "TO2.OVHProof", "TO2.OVNextEntry",
-     "TO2.DeviceSetup", "TO2.DeviceServiceInfoReady", "TO2.OwnerServiceInfoReady", "TO2.DeviceServiceInfo",
-     "TO2.OwnerServiceInfo", "TO2.Done", "TO2.Done2", "DI.SetCredentials", "TO0.HelloAck", "TO0.to0d",
-     "TO0.OwnerSign", "TO0.AcceptOwner", "TO1.HelloRV", "TO1.HelloRVAck", "SigInfo", "serviceinfo.KV",
-     "TO2.GetOVNextEntry", "DI.SetHmac"] := by decide +kernel
+      | some s => !(s.inFragment && decide (s.ptrDepth ≤ 63))
+      | none => true) = ["cose.Key", "DevmodModulesChunk"] ∧
+    Fdo.Gen.Schemas.names.length = 69 := by decide +kernel
+
+/-- since the fifth round `interface{}` targets are inside: the bare `any`, the EAT claim map
+(label ↦ any) and the COSE_Sign1 object that carries it -/
+theorem any_targets_in_fragment :
+    Fdo.Gen.Schemas.s_any.inFragment = true ∧ Fdo.Gen.Schemas.s_EAT.inFragment = true ∧
+    Fdo.Gen.Schemas.s_Sign1Tag_EAT_.inFragment = true := by decide +kernel
+
+/-- Non-vacuity for `any`: an EAT-like claim map {10: h'0102', 256: [1, "a"], -3: true} conforms. -/
+example :
+    confAnyB maxDepth (.map [(.int 10, .bytes [1, 2]), (.int 256, .arr [.int 1, .text [0x61]]), (.int (-3), .bool true)]) = true := by
+  decide +kernel
 
 /-- Non-vacuity: a rendezvous redirect (`protocol.To1d`: addresses with nil and non-nil pointers, a hash)
 conforms, marshals, and is read back. -/
